@@ -32,7 +32,7 @@ Next ==
        [] e.e = "TrackOnly" -> Step(ChkSynthesis(ds[e.d], e, TRUE), DriftSynthesis(ds[e.d], e, TRUE), e, Upd(e.d, NxtSynthesis(ds[e.d], e, TRUE)))
        [] e.e = "BlockinAgain" ->
             Step((IF e.rb \notin {0, OV_EINVALc} THEN {"BlockinReturnsDocumentedCode"} ELSE {}) \cup
-                 (IF ~DecBufOK(ds[e.d].B, Observed(e, e.hsp)) THEN {"BufferInsideRing"} ELSE {}), {}, e,
+                 (IF ~StoreOK(ActualB(ds[e.d], e), Observed(e, e.hsp)) THEN {"BufferInsideRing"} ELSE {}), {}, e,
                  Upd(e.d, [NxtUnmodelled(ds[e.d], e) EXCEPT !.chunkclean = FALSE, !.prevclean = FALSE, !.prev = -1]))
        [] e.e = "PcmOut" -> Step(ChkPcmOut(ds[e.d], e), {}, e, ds)
        [] e.e = "ReadP" -> Step(ChkRead(ds[e.d], e), {}, e, Upd(e.d, NxtRead(ds[e.d], e)))
